@@ -54,6 +54,9 @@ def case_tags(case):
                      else 'mutex' if (lo, hi) == (0, 1) else 'cardinality')
         if hi == -1:
             tags.add('star')
+    for r in m['rels']:
+        if len(r['kids']) >= 10 and r['lo'] >= 2 and r['hi'] >= 10:
+            tags.add('wide10')
     owners = [r['owner'] for r in m['rels']]
     if len(owners) != len(set(owners)):
         tags.add('multi-rel-parent')
@@ -165,39 +168,91 @@ def load_event(case, naming):
     return b, {'a': 'Load', 'args': {'model': case['model']}, 'out': 'value', 'post': post, 'anom': anom}
 
 
+def flip_first_relation(case, builder):
+    """In-place edit by attribute assignment (no constructor involved): the first relation of the
+    root changes its cardinality; returns the abstract model after the edit, or None."""
+    m = case['model']
+    if not m['rels']:
+        return None
+    r = m['rels'][0]
+    n = len(r['kids'])
+    new = (0, 1) if (r['lo'], r['hi']) != (0, 1) else (1, 1)
+    if (r['lo'], r['hi']) == new:
+        return None
+    rel = builder.objs[r['owner']].relations[0]
+    rel.card_min, rel.card_max = new
+    rels = [dict(r, lo=new[0], hi=new[1])] + m['rels'][1:]
+    return dict(m, rels=rels)
+
+
 def ops_script(ops):
     def script(case, naming, tier, seed):
         b, ev = load_event(case, naming)
         events = [ev]
+        objs = []
         objid = 0
         for op in ops:
             if op == 'ancestors':
                 for name in sorted(b.objs):
                     objid += 1
-                    events.append(observe.exec_op(observe.new_op(op), objid, op, b.model, naming, b.objs[name]))
+                    o = observe.new_op(op)
+                    objs.append((o, objid, op, name))
+                    events.append(observe.exec_op(o, objid, op, b.model, naming, b.objs[name]))
             else:
                 objid += 1
-                events.append(observe.exec_op(observe.new_op(op), objid, op, b.model, naming))
+                o = observe.new_op(op)
+                objs.append((o, objid, op, None))
+                events.append(observe.exec_op(o, objid, op, b.model, naming))
+        # the SAME model object, edited in place, analysed again by the SAME operation objects
+        if hash(repr(case['hist'])) % 3 == 0:
+            edited = flip_first_relation(case, b)
+            if edited is not None:
+                from project import project
+                post, anom = project(b.model, naming)
+                events.append({'a': 'Load', 'args': {'model': edited}, 'out': 'value', 'post': post, 'anom': anom})
+                for o, oid, op, name in objs:
+                    events.append(observe.exec_op(o, oid, op, b.model, naming, b.objs[name] if name else None, seqno=2))
         return events, None
     return script
 
 
+def prepare_chain(cases, tier, seed):
+    return list(cases) + [('DeepChain-%05d' % n, {'chain': n, 'tags': ['deepchain']}) for n in ((300, 800) if tier == 'quick' else (100, 300, 800))]
+
+
+def with_chain(script):
+    def wrapped(case, naming, tier, seed):
+        if 'chain' in case:
+            return [observe.exec_chain(case['chain'])], {'key': case['chain'], 'nontrivial': True}
+        return script(case, naming, tier, seed)
+    return wrapped
+
+
 SEM_ASSUME = ['Boolean models; constraints purely propositional over feature names',
               'exact counts are brute force over all 2^n selections, n <= family bound']
-prop('C13', ['Tree', 'TreeStar', 'TreeCtc', 'Big', 'Wide', 'Chain', 'Ctc3'], naming_matters=False, assumptions=SEM_ASSUME)(ops_script(['estimate']))
-prop('C14', ['Tree', 'TreeStar', 'TreeCtc', 'Big', 'Wide', 'Chain', 'Ctc3'], naming_matters=False, assumptions=SEM_ASSUME)(ops_script(['core']))
-prop('C15', ['Tree', 'TreeStar', 'TreeCtc', 'Big', 'Wide', 'Chain', 'Ctc3'], naming_matters=False, assumptions=SEM_ASSUME)(ops_script(['atomic']))
+prop('C13', ['Tree', 'TreeStar', 'TreeCtc', 'Big', 'Wide', 'Chain', 'Ctc3'], naming_matters=False, assumptions=SEM_ASSUME,
+     prepare=prepare_chain)(with_chain(ops_script(['estimate'])))
+prop('C14', ['Tree', 'TreeStar', 'TreeCtc', 'Big', 'Wide', 'Chain', 'Ctc3'], naming_matters=False, assumptions=SEM_ASSUME,
+     prepare=prepare_chain)(with_chain(ops_script(['core'])))
+prop('C15', ['Tree', 'TreeStar', 'TreeCtc', 'Big', 'Wide', 'Chain', 'Ctc3'], naming_matters=False, assumptions=SEM_ASSUME,
+     prepare=prepare_chain)(with_chain(ops_script(['atomic'])))
 C16_OPS = ['leaves', 'count_leaves', 'depth', 'abf', 'varpoints', 'ancestors']
 
 
 def prepare_c16(cases, tier, seed):
-    out = list(cases)
+    out = prepare_chain(cases, tier, seed)
+    for k, (nroot, extra) in enumerate([(29, [1, 1]), (40, [3, 2, 1]), (12, [12, 11, 7]), (100, [1] * 6)]):
+        out.append(('Shape-%05d' % k, {'shape': [nroot, extra], 'tags': ['wideshape']}))
     for i, f in enumerate(corpus_files(tier, seed)):
         out.append(('Corpus-%05d' % i, {'corpus': f, 'tags': ['corpus']}))
     return out
 
 
 def script_c16(case, naming, tier, seed):
+    if 'chain' in case:
+        return [observe.exec_chain(case['chain'])], {'key': case['chain'], 'nontrivial': True}
+    if 'shape' in case:
+        return [observe.exec_big(observe.shape_model(*case['shape']), None)], {'key': case['shape'], 'nontrivial': True}
     if 'corpus' not in case:
         return ops_script(C16_OPS)(case, naming, tier, seed)
     ev, model = formats.corpus_event(case['corpus'], None, FULL_BOUND[tier])
@@ -439,7 +494,7 @@ def roundtrip_script(fmt):
     return script
 
 
-ALL_NAME_CLASSES = ('space', 'edgespace', 'punct', 'uvlkw', 'opword', 'digit0', 'under0', 'nonascii', 'quote', 'dot', 'apos')
+ALL_NAME_CLASSES = ('space', 'edgespace', 'nearsame', 'nonnfc', 'long', 'numeric', 'punct', 'uvlkw', 'opword', 'digit0', 'under0', 'nonascii', 'quote', 'dot', 'apos')
 
 
 def fam_names(fmt):
@@ -459,7 +514,7 @@ prop('C06', fam_names('afm'), name_classes=('afmword',), base_class='afmword', n
      name_stride={'quick': 3, 'thorough': 1},
      assumptions=['names match the AFM WORD token; attribute names the LOWERCASE token; enumerated domain elements, '
                   'default and null values are text tokens; range bounds are integers'])(roundtrip_script('afm'))
-UVL_NAME_CLASSES = ('space', 'edgespace', 'punct', 'uvlkw', 'opword', 'digit0', 'under0', 'nonascii')
+UVL_NAME_CLASSES = ('space', 'edgespace', 'nearsame', 'long', 'numeric', 'punct', 'uvlkw', 'opword', 'digit0', 'under0', 'nonascii')
 prop('C01', fam_names('uvl'), name_classes=UVL_NAME_CLASSES, naming_matters=True, name_stride={'quick': 4, 'thorough': 3},
      assumptions=['names carry no double quote, dot or newline; strings no apostrophe; floats have a plain decimal repr'])(
     roundtrip_script('uvl'))
@@ -533,6 +588,14 @@ def prepare_c12(cases, tier, seed):
 def script_c12(case, naming, tier, seed):
     b, ev = load_event(case, naming)
     events = [ev]
+    if len(case['model']['feats']) > 2:        # an independently built, child-permuted twin is serialised first
+        from build import build_from_model
+        twin, _ = build_from_model(case['model'], naming, 'revkids')
+        for fmt in ALL_WRITERS:
+            wev, path, _ = formats.write_event(fmt, twin, naming)
+            if os.path.exists(path):
+                os.remove(path)
+        events.append({'a': 'WriteOther', 'args': {'how': 'revkids'}, 'out': 'value'})
     for rep in range(3):                       # repeated calls on the same model object
         for fmt in ALL_WRITERS:
             wev, path, _ = formats.write_event(fmt, b.model, naming)
@@ -562,7 +625,7 @@ prop('C10', ['Tree', 'TreeCtc', 'Clafer-Ctc2', 'Deep-Ctc', 'Wide', 'Ctc3'], nami
      assumptions=['the .exp precedence is not < and < or < -> < <->, binary connectives left-associative',
                   'SXFM identifiers may be bare words or double-quoted strings'],
      trusted=['harness/parse_export.py (syntax of SXFM and .exp only)'])(export_script(['splot', 'pl']))
-prop('C11', ['Clafer-Tree', 'Clafer-Ctc', 'Clafer-Ctc2', 'Deep-Ctc', 'Clafer-Attr', 'Wide', 'Ctc3'], name_classes=('space', 'punct', 'opword', 'dot'), naming_matters=True,
+prop('C11', ['Clafer-Tree', 'Clafer-Ctc', 'Clafer-Ctc2', 'Deep-Ctc', 'Clafer-Attr', 'Wide', 'Ctc3'], name_classes=('space', 'punct', 'opword', 'dot', 'casepair'), naming_matters=True,
      attr_names_too=True,
      assumptions=['both ! and not are accepted as Clafer negation', 'identifiers may be bare words or double-quoted strings'],
      trusted=['harness/parse_export.py (syntax of the Clafer subset only)'])(export_script(['clafer']))
@@ -653,7 +716,7 @@ def readref_script(fmt):
 
 
 prop('C04', ['uvl-Type', 'uvl-FCard', 'uvl-Attr', 'uvl-Star', 'uvl-Abs', 'Ref-uvl-Ctc', 'Ref-uvl-Arith', 'Ref-Mix', 'Surface-uvl'],
-     name_classes=('space', 'punct', 'uvlkw', 'digit0'), naming_matters=True, prepare=prepare_surface(UVL_WANTED, 12),
+     name_classes=('space', 'punct', 'uvlkw', 'digit0', 'long'), naming_matters=True, prepare=prepare_surface(UVL_WANTED, 12),
      assumptions=['the reference emitter (harness/emit_ref.py) is written from the UVL grammar and is trusted',
                   'own-line comments and blank lines between sections are not emitted: the installed uvlparser '
                   '(a dependency) rejects them', 'sub-expressions are always parenthesised, so the oracle never '
@@ -666,9 +729,9 @@ REF_FORMATS = {
                  wanted=['mandatory', 'optional', 'or', 'alternative', 'abstract', 'multi-rel-parent', 'nary', 'op:NOT', 'op:AND',
                          'op:OR', 'op:IMPLIES', 'op:EQUIVALENCE', 'op:REQUIRES', 'op:EXCLUDES'],
                  ok=lambda m: True),
-    'xml': dict(surface='Surface-xml', sources=['Ref-xml', 'Tree'], size=10,
+    'xml': dict(surface='Surface-xml', sources=['Ref-xml', 'Tree', 'Ref-xml-Wide'], size=10,
                 wanted=['mandatory', 'optional', 'or', 'alternative', 'mutex', 'cardinality', 'card1', 'multi-rel-parent',
-                        'op:REQUIRES', 'op:EXCLUDES'],
+                        'op:REQUIRES', 'op:EXCLUDES', 'wide10'],
                 ok=lambda m: all(c['ast']['op'] in ('REQUIRES', 'EXCLUDES') and c['ast']['l']['op'] == 'VAR'
                                  and c['ast']['r']['op'] == 'VAR' for c in m['ctcs'])
                 and len({c['name'] for c in m['ctcs']}) == len(m['ctcs'])),
@@ -765,7 +828,7 @@ def prepare_c02(cases, tier, seed):
     return out
 
 
-@prop('C02', C02_FAMILIES, name_classes=('space', 'nonascii'), naming_matters=True, prepare=prepare_c02,
+@prop('C02', C02_FAMILIES, name_classes=('space', 'nonascii', 'numeric', 'digit0'), naming_matters=True, prepare=prepare_c02,
       name_stride={'quick': 6, 'thorough': 3},
       assumptions=['corpus files above the size bound are not judged for well-formedness (TLC cannot ingest them at useful speed)'],
       trusted=['harness/emit_ref.py'])
